@@ -12,6 +12,7 @@ package main
 // The principal and every name are percent-decoded (%XX), so that ids with '|', ':', '/', ' ', ',' … can be sent;
 // names in the `changed=` list of the answer are percent-encoded the same way (plain names are unchanged).
 // All `do` ops between two `new` lines go to the SAME handler (one broker, several principals).
+// `srv` / `conn` / `cdo`: the same requests over connections of the real server loop, see zz_verif_c24_conn.go.
 
 import (
 	"bufio"
@@ -634,6 +635,10 @@ func init() {
 				fmt.Fprintln(w, "bad-op")
 				break
 			}
+			if verifC24Server != nil {
+				verifC24Server.close()
+				verifC24Server = nil
+			}
 			env = verifC24New(f[1], string(js))
 			fmt.Fprintln(w, "new")
 		case f[0] == "do" && len(f) == 5 && env != nil:
@@ -643,6 +648,18 @@ func init() {
 				names[i] = verifC24Unesc(names[i])
 			}
 			fmt.Fprintln(w, verifC24Do(env, verifC24Unesc(f[1]), int16(k), f[3], names))
+		// connection stream (zz_verif_c24_conn.go): the real broker.Server loop + the real buildConnContextFunc
+		case f[0] == "srv" && len(f) == 3 && env != nil:
+			fmt.Fprintln(w, verifC24Srvop(env, f[1], f[2]))
+		case f[0] == "conn" && len(f) == 4 && env != nil:
+			fmt.Fprintln(w, verifC24ConnOp(f[1], f[2], f[3]))
+		case f[0] == "cdo" && len(f) == 7 && env != nil:
+			k, _ := strconv.Atoi(f[4])
+			names := strings.Split(f[6], ",")
+			for i := range names {
+				names[i] = verifC24Unesc(names[i])
+			}
+			fmt.Fprintln(w, verifC24Cdo(env, f[1], f[2], f[3], int16(k), f[5], names))
 		default:
 			fmt.Fprintln(w, "bad-op")
 		}
